@@ -86,7 +86,7 @@ def check_single(case):
 SEQ_PROFILE = {"taskables": (1, 2), "auxes": (0, 1), "slaves": (0, 0), "frames": (2, 5), "acts": (0, 4), "depth": 2,
                "ticks": (6, 20), "periods": TICKS, "tasker_periods": [None, None, "0.1", "0.25", "0.3"],
                "aux_policy": "clean", "aux_owner": "taskable", "aux_place": "first", "let_in_aux": False,
-               "kinds": {"data": 2, "go": 8, "let": 0, "timeout": 5, "repeat": 4, "aux": 1, "auxif": 0, "bid": 0, "done": 0, "fiat": 0},
+               "kinds": {"data": 2, "go": 8, "let": 0, "timeout": 5, "repeat": 4, "aux": 1, "auxif": 0, "bid": 0, "done": 2, "fiat": 0},
                "needs": {"cmp": 1, "bool": 0, "elapsed": 7, "recurred": 5, "done": 0, "status": 0, "auxdone": 0},
                "elapsed_goals": [0.0, 0.05, 0.1, 0.15, 0.2, 0.25, 0.3, 0.4, 0.6, 0.7, 0.8, 0.9],
                "timeouts": ["0", "0.05", "0.1", "0.15", "0.2", "0.3", "0.35", "0.5", "0.7", "0.8"]}
